@@ -318,6 +318,101 @@ func c04Phase(c *vk.Ctx, r *rand.Rand, natTimeout time.Duration, expiry bool) bo
 	return true
 }
 
+// c04Process: the real binary (listeners shared through the listener manager, as in
+// production): interleaved clients each get exactly their own replies.
+func c04Process(c *vk.Ctx, r *rand.Rand) bool {
+	keys := RandKeys(r, 3, nil, 0)
+	port := 15000 + c.Batch*10
+	cf := ConfSpec{Services: []SvcSpec{{Listeners: []LnSpec{{"udp", fmt.Sprintf("203.0.113.80:%d", port)}, {"udp", fmt.Sprintf("[2001:db8:80::1]:%d", port)}}, Keys: keys}}}
+	srv, err := StartServer(c.RunDir, cf, ServerOpts{UDPTimeout: 20 * time.Second})
+	if err != nil {
+		c.Violation("C04/process/server-does-not-start", err.Error())
+		if srv != nil {
+			srv.Stop()
+		}
+		return false
+	}
+	defer srv.Stop()
+	tgt, err := startUDPTarget("echo", net.IPv4(45, 74, byte(c.Batch), 1).To4(), 7001)
+	if err != nil {
+		fatalf("target: %v", err)
+	}
+	defer tgt.Stop()
+	M := 4 + r.Intn(6)
+	var clients []*udpClient
+	for i := 0; i < M; i++ {
+		ip := net.IPv4(198, 51, 100, byte(1+i)).To4()
+		if i%3 == 2 {
+			ip = net.ParseIP(fmt.Sprintf("2001:db8:c4::%x", 1+i))
+		}
+		cl, err := newUDPClient(ip, 0, keys[r.Intn(len(keys))])
+		if err != nil {
+			fatalf("client: %v", err)
+		}
+		defer cl.Close()
+		clients = append(clients, cl)
+	}
+	server4, _ := net.ResolveUDPAddr("udp", fmt.Sprintf("203.0.113.80:%d", port))
+	server6, _ := net.ResolveUDPAddr("udp", fmt.Sprintf("[2001:db8:80::1]:%d", port))
+	type exp struct {
+		client int
+		rid    uint64
+	}
+	var expects []exp
+	tgt.SetHold(true) // replies are released later, after other clients have sent
+	for round := 0; round < c.N(6, 20); round++ {
+		for _, ci := range r.Perm(M) {
+			cl := clients[ci]
+			id := nextID(c.Batch)
+			server := server4
+			if cl.Addr.IP.To4() == nil {
+				server = server6
+			}
+			cl.Send(ssUDP(cl.Key, randBytes(r, cl.Key.Codec().C.SaltSize), tgt.addr(), mkUDPPayload(id, 1, 20+r.Intn(100), 30)), server)
+			if _, ok := tgt.waitID(id, udpB); !ok {
+				c.Violation("C04/process/valid-datagram-not-forwarded", map[string]any{"client": cl.Addr.String()})
+				return false
+			}
+			expects = append(expects, exp{ci, id | 1<<56})
+		}
+		if round%2 == 1 {
+			tgt.SetHold(false) // the answers to the last two rounds go out now, all clients having sent since
+			tgt.SetHold(true)
+		}
+	}
+	tgt.SetHold(false)
+	for _, e := range expects {
+		if _, ok := clients[e.client].waitReply(clients[e.client].Key, e.rid, udpB); !ok {
+			c.Violation("C04/process/reply-not-delivered-to-its-client", map[string]any{"client": clients[e.client].Addr.String()})
+			return false
+		}
+	}
+	// nothing else arrived anywhere: every datagram a client holds is one of its own replies
+	mine := map[int]map[uint64]bool{}
+	for _, e := range expects {
+		if mine[e.client] == nil {
+			mine[e.client] = map[uint64]bool{}
+		}
+		mine[e.client][e.rid] = true
+	}
+	for ci, cl := range clients {
+		for _, g := range cl.Snap() {
+			d, err := decodeReply(cl.Key, g.Data)
+			if err != nil || len(d.Payload) < 8 || !mine[ci][u64(d.Payload[:8])] {
+				c.Violation("C04/process/client-received-a-datagram-that-is-not-its-own", map[string]any{"client": cl.Addr.String(), "decrypts_under_own_key": err == nil})
+				return false
+			}
+		}
+		if len(cl.Snap()) != len(mine[ci]) {
+			c.Violation("C04/process/reply-count", map[string]any{"client": cl.Addr.String(), "received": len(cl.Snap()), "expected": len(mine[ci])})
+			return false
+		}
+	}
+	c.Count("process_interleaved_replies_delivered", int64(len(expects)))
+	c.Eval(fmt.Sprintf("process|interleaved-clients=%d", M))
+	return true
+}
+
 func c04Run(c *vk.Ctx) {
 	lab.MustSetup(c.RunDir)
 	r := c.Rng
@@ -329,6 +424,7 @@ func c04Run(c *vk.Ctx) {
 			return
 		}
 	}
+	c04Process(c, r)
 }
 
 func init() {
@@ -345,6 +441,7 @@ func init() {
 			c.Require("expiry_phases")
 			c.Require("unsolicited_delivered_to_owner_only")
 			c.Require("no_association_for_rejected_first_datagram")
+			c.Require("process_interleaved_replies_delivered")
 			c04Run(c)
 		},
 	})
